@@ -504,12 +504,20 @@ def ofRaw (r : RawEv) : Option Ev :=
       | _ => none
   | _, _ => none
 
+/-- Cells of the hazard-pointer record LIST (`hphead`, a record's `next` link): the harness
+    registers them so that a late-joining thread's registration has scheduling points inside it;
+    what they hold is C14's business (model `Hp`), not this model's. -/
+def recordListCell (r : RawEv) : Bool :=
+  match r.args with
+  | c :: _ => c = "hphead" || c.startsWith "recnext"
+  | [] => false
+
 /-- `verifdrv Mpmc <log>` -/
 def drive (lines : List String) : IO UInt32 := do
   match initArgs lines with
   | "mpmc" :: _ =>
     let body := lines.filter (fun l => !isInit l)
-    let v := validate sys ofRaw body
+    let v := validateP sys (fun r => if r.kind != "note" && recordListCell r then some none else (ofRaw r).map some) body
     let mon := queueMonitor { disc := .fifo, capacity := 0, drained := true, emptyOkInFlight := true } body
     report "Mpmc" v mon
   | _ => IO.println "VALIDATE DIVERGE missing init"; return 1
